@@ -14,6 +14,7 @@ namespace Hive.Daemon
 @[simp] theorem emit_wgc (e : Ev) (s : St) : (emit e s).wgc = s.wgc := rfl
 @[simp] theorem emit_wgKeys (e : Ev) (s : St) : (emit e s).wgKeys = s.wgKeys := rfl
 @[simp] theorem emit_sd (e : Ev) (s : St) : (emit e s).sd = s.sd := rfl
+@[simp] theorem emit_rw (e : Ev) (s : St) : (emit e s).rw = s.rw := rfl
 @[simp] theorem emit_tr (e : Ev) (s : St) : (emit e s).tr = s.tr ++ [e] := rfl
 
 @[simp] theorem setObj_stopped (s : St) (i : Nat) (w : Wk) : (setObj s i w).stopped = s.stopped := rfl
@@ -24,6 +25,7 @@ namespace Hive.Daemon
 @[simp] theorem setObj_wgc (s : St) (i : Nat) (w : Wk) : (setObj s i w).wgc = s.wgc := rfl
 @[simp] theorem setObj_wgKeys (s : St) (i : Nat) (w : Wk) : (setObj s i w).wgKeys = s.wgKeys := rfl
 @[simp] theorem setObj_sd (s : St) (i : Nat) (w : Wk) : (setObj s i w).sd = s.sd := rfl
+@[simp] theorem setObj_rw (s : St) (i : Nat) (w : Wk) : (setObj s i w).rw = s.rw := rfl
 @[simp] theorem setObj_tr (s : St) (i : Nat) (w : Wk) : (setObj s i w).tr = s.tr := rfl
 theorem setObj_objs (s : St) (i : Nat) (w : Wk) (j : Nat) :
     (setObj s i w).objs j = if j = i then w else s.objs j := rfl
